@@ -561,8 +561,54 @@ func (st *State) runRangeLoop(lp *loopParts, getIdx func(*State) string, n strin
 	return st.runLoop(lp)
 }
 
+// execRangeMap: ranging over a map visits its entries in an unspecified order. The loop is modelled as a loop with a
+// non-deterministic continuation condition whose body sees an arbitrary entry that is present in the map at that
+// moment. Nothing is claimed about which or how many entries are visited (no completeness): invariants must hold for
+// any visiting order, and termination is not claimed.
 func (st *State) execRangeMap(x *ast.RangeStmt, label string, coll Val, collT types.Type, lp *loopParts) []Outcome {
-	panic(vcErr("range over map not supported yet"))
+	fc := st.fc
+	ord := fc.loopOrd[x]
+	fc.noteAssumption("range over a map: the body is verified for an arbitrary present entry per iteration; which entries are visited, how often, and termination are not modelled")
+	var keyObj, valObj types.Object
+	if id, ok := x.Key.(*ast.Ident); ok && id.Name != "_" {
+		keyObj = st.info().ObjectOf(id)
+	}
+	if x.Value != nil {
+		if id, ok := x.Value.(*ast.Ident); ok && id.Name != "_" {
+			valObj = st.info().ObjectOf(id)
+		}
+	}
+	mt := collT.Underlying().(*types.Map)
+	lp.cond = func(s *State) string {
+		return s.fc.fresh("more", "Bool")
+	}
+	lp.body = func(s *State) []Outcome {
+		k := s.freshVal("mk", s.subst(mt.Key()))
+		v, present := s.mapLookup(coll, collT, k)
+		s.assume(present)
+		if keyObj != nil {
+			s.vars[keyObj] = k
+			if s.fc.rec != nil {
+				s.fc.rec.vars[keyObj] = true
+			}
+		}
+		if valObj != nil {
+			s.vars[valObj] = s.named(v, "mv")
+			if s.fc.rec != nil {
+				s.fc.rec.vars[valObj] = true
+			}
+		}
+		s.runAnchor(fmt.Sprintf("loop%d.body-begin", ord), x.Body.Lbrace+1)
+		return s.exec(x.Body)
+	}
+	lp.post = func(s *State) []Outcome { return normal(s) }
+	if lp.spec == nil {
+		lp.spec = &LoopSpec{Ordinal: ord}
+		if fc.ceUnroll == 0 && (fc.curContract == nil || !fc.permitBareRange) {
+			panic(vcErr(fmt.Sprintf("loop %d of %s has no invariant", ord, fc.Name)))
+		}
+	}
+	return st.runLoop(lp)
 }
 
 // utf8Prelude defines Go's UTF-8 decoding exactly (unicode/utf8.DecodeRune): position p, end e (absolute indices into c).
